@@ -61,6 +61,8 @@ prop("C19", "RL over from_dom/to_dom (no stuck loop path), RX (search sentinels)
     lambda p, r: rl.rule_rl(p, r, files=FROM_TO_DOM, min_loops=10),
     lambda p, r: rsmall.rule_rx(p, r),
     rsmall.rule_ra,
+    rsmall.rule_rw,
+    rk.rule_rk_bundled,
     rt.rule_rt2,
     gates("C19"),
 ])
@@ -68,6 +70,7 @@ prop("C20", "RL (no stuck cycle path) + ranking variable on find_diff_start/find
     lambda p, r: rl.rule_rl(p, r, files=("prosemirror/model/diff.py",)),
     lambda p, r: rl.rule_rl_rank(p, r, [("prosemirror/model/diff.py::find_diff_start", "counter"), ("prosemirror/model/diff.py::find_diff_end", "counter")]),
     lambda p, r: ru.rule_ru(p, r, files=("prosemirror/model/diff.py",)),
+    lambda p, r: rsmall.rule_rz(p, r),
     gates("C20"),
 ], [lambda p, r: rl.rule_rl(p, r)])
 
